@@ -63,8 +63,7 @@ class _Universal(ast.NodeTransformer):
                     and not isinstance(v.left, (ast.List, ast.Constant)):
                 rhs = v.left
             if rhs is not None:
-                tgt = copy.deepcopy(node.targets[0])
-                tgt.ctx = ast.Store()
+                tgt = node.targets[0]
                 new = ast.AugAssign(target=tgt, op=v.op, value=rhs)
                 new._was_assign = True
                 return ast.copy_location(new, node)
@@ -229,9 +228,11 @@ def build_reference(repo_root):
             if mod.endswith('.__init__'):
                 mod = mod[:-9]
             with open(p) as fh:
-                tree = ast.parse(fh.read())
+                text = fh.read()
+            tree = ast.parse(text)
             tree = ast.fix_missing_locations(_Universal().visit(tree))
-            t = {}
+            import hashlib
+            t = {'__sha1__': hashlib.sha1(text.encode()).hexdigest()}
             for q, node, cls, body in qualfuncs(tree):
                 t[q] = describe(node)
             out[mod] = t
@@ -351,7 +352,7 @@ def _simple_helper(fn):
 
 
 def _inline_helpers(tree, modname, ref, log):
-    known = set(ref.get(modname, {}))
+    known = set(ref.get(modname, {})) - {'__sha1__'}
     if not known:
         return
     funcs = qualfuncs(tree)
@@ -453,6 +454,34 @@ def _inline_helpers(tree, modname, ref, log):
                         else:
                             sub[p_] = a_
                     ren = {n: tag + n for n in stored}
+                    # `a, b = helper(...)` with `return x, y` of helper
+                    # locals: the locals become the targets themselves
+                    direct = False
+                    if isinstance(st, ast.Assign) and len(st.targets) == 1 \
+                            and st.value is c and hb and isinstance(
+                                hb[-1], ast.Return) and hb[-1].value is not \
+                            None:
+                        tg = st.targets[0]
+                        rv = hb[-1].value
+                        tnames = [tg] if isinstance(tg, ast.Name) else (
+                            list(tg.elts) if isinstance(tg, ast.Tuple)
+                            else [])
+                        rnames = [rv] if isinstance(rv, ast.Name) else (
+                            list(rv.elts) if isinstance(rv, ast.Tuple)
+                            else [])
+                        if tnames and len(tnames) == len(rnames) and all(
+                                isinstance(x, ast.Name) for x in
+                                tnames + rnames) and all(
+                                    x.id in stored for x in rnames) and \
+                                len({x.id for x in rnames}) == len(rnames):
+                            hnames = set()
+                            for s_ in hb:
+                                hnames |= _names(s_)
+                            if not ({x.id for x in tnames} & (
+                                    hnames - {x.id for x in rnames})):
+                                for t_, r_ in zip(tnames, rnames):
+                                    ren[r_.id] = t_.id
+                                direct = True
 
                     class R(ast.NodeTransformer):
                         def visit_Name(self, node):
@@ -473,7 +502,9 @@ def _inline_helpers(tree, modname, ref, log):
                     for s_ in ins:
                         for x in ast.walk(s_):
                             ast.copy_location(x, st)
-                    if isinstance(st, ast.Expr) and st.value is c:
+                    if direct:
+                        blk[i:i + 1] = ins
+                    elif isinstance(st, ast.Expr) and st.value is c:
                         blk[i:i + 1] = ins
                     else:
                         if retv is None:
@@ -498,7 +529,8 @@ def _inline_helpers(tree, modname, ref, log):
             if hf in container:
                 container.remove(hf)
             log.append('inlined helper %s at %d call site(s)' % (q, used))
-    ast.fix_missing_locations(tree)
+    if log:
+        ast.fix_missing_locations(tree)
 
 
 def _is_call_to(c, name, is_method, cls):
@@ -681,6 +713,48 @@ def _loops_to_reference(fn, rf, log, q):
             continue
         seq = idxname = elt = None
         keyed = False
+        # enumerate(zip(A, B, ...)) / zip(A, B, ...) over parallel sequences
+        zc = it
+        zidx = None
+        if isinstance(it, ast.Call) and _n(it.func) == 'enumerate' and \
+                len(it.args) == 1 and isinstance(n.target, ast.Tuple) and \
+                len(n.target.elts) == 2 and isinstance(
+                    n.target.elts[0], ast.Name):
+            zc = it.args[0]
+            zidx = n.target.elts[0].id
+            ztg = n.target.elts[1]
+        else:
+            ztg = n.target
+        if isinstance(zc, ast.Call) and _n(zc.func) == 'zip' and \
+                isinstance(ztg, ast.Tuple) and len(ztg.elts) == len(zc.args) \
+                and all(isinstance(e, ast.Name) for e in ztg.elts):
+            hdr = None
+            for a_ in zc.args:
+                h_ = 'range(len(%s))' % _n(a_)
+                if h_ in ref_iters and h_ not in have:
+                    hdr = h_
+                    break
+            elts = [e.id for e in ztg.elts]
+            body_stores = _names(ast.Module(body=n.body, type_ignores=[]),
+                                 ast.Store)
+            if hdr is not None and not (set(elts) & body_stores):
+                used = _names(fn)
+                iname = zidx or (ref_iters[hdr][0] if ref_iters[hdr][0]
+                                 not in used else None)
+                if iname is not None and iname.isidentifier():
+                    sub = {e: ast.Subscript(
+                        value=copy.deepcopy(a_), slice=ast.Name(
+                            id=iname, ctx=ast.Load()), ctx=ast.Load())
+                        for e, a_ in zip(elts, zc.args)}
+                    n.body = [_Subst(sub).visit(s_) for s_ in n.body]
+                    n.target = ast.copy_location(ast.Name(
+                        id=iname, ctx=ast.Store()), n.target)
+                    n.iter = ast.copy_location(ast.parse(
+                        hdr, mode='eval').body, it)
+                    have.add(hdr)
+                    log.append('%s: loop over %s restored to `for %s in %s`'
+                               % (q, its, iname, hdr))
+                    continue
         if isinstance(it, ast.Call) and _n(it.func) == 'enumerate' and \
                 len(it.args) == 1 and isinstance(n.target, ast.Tuple) and \
                 len(n.target.elts) == 2 and all(
@@ -739,6 +813,53 @@ def _loops_to_reference(fn, rf, log, q):
 
 
 # ---------------------------------------------------------------------------
+# LU: unroll short literal loops the reference does not have
+
+def _literal_items(it):
+    if isinstance(it, (ast.Tuple, ast.List)) and all(
+            isinstance(e, ast.Constant) for e in it.elts):
+        return [e for e in it.elts]
+    if isinstance(it, ast.Call) and isinstance(it.func, ast.Name) and \
+            it.func.id == 'range' and all(isinstance(a, ast.Constant) and
+                                          isinstance(a.value, int)
+                                          for a in it.args) and \
+            1 <= len(it.args) <= 3 and not it.keywords:
+        vals = list(range(*[a.value for a in it.args]))
+        return [ast.Constant(value=v) for v in vals]
+    return None
+
+
+def _unroll_literal_loops(fn, rf, log, q):
+    ref_loops = {(t, i) for t, i in rf.get('loops', [])}
+    for blk in _blocks(fn):
+        i = 0
+        while i < len(blk):
+            st = blk[i]
+            if isinstance(st, ast.For) and isinstance(st.target, ast.Name) \
+                    and not st.orelse and (_n(st.target), _n(st.iter)) \
+                    not in ref_loops:
+                items = _literal_items(st.iter)
+                if items is not None and 1 <= len(items) <= 4 and not any(
+                        isinstance(x, (ast.Break, ast.Continue))
+                        for s_ in st.body for x in ast.walk(s_)) and \
+                        st.target.id not in _names(ast.Module(
+                            body=st.body, type_ignores=[]), ast.Store):
+                    new = []
+                    for c_ in items:
+                        for s_ in st.body:
+                            cp = copy.deepcopy(s_)
+                            cp = _Subst({st.target.id: c_}).visit(cp)
+                            new.append(cp)
+                    blk[i:i + 1] = new
+                    log.append('%s: literal loop `for %s in %s` unrolled'
+                               % (q, _n(st.target), _n(st.iter)))
+                    i += len(new)
+                    continue
+            i += 1
+    ast.fix_missing_locations(fn)
+
+
+# ---------------------------------------------------------------------------
 # T: temporaries and renames
 
 def _single_assign(fn, name):
@@ -758,7 +879,7 @@ def _single_assign(fn, name):
     return None
 
 
-def _inline_temp(fn, name):
+def _inline_temp(fn, name, allow_calls=False):
     h = _single_assign(fn, name)
     if h is None:
         return False
@@ -769,8 +890,14 @@ def _inline_temp(fn, name):
              and x.id == name and isinstance(x.ctx, ast.Load)]
     if not loads:
         return False
-    if has_call and len(loads) > 1:
+    if has_call and len(loads) > 1 and not allow_calls:
         return False
+    if has_call and len(loads) > 1:
+        calls = [x for x in ast.walk(val) if isinstance(x, ast.Call)]
+        if len(calls) != 1 or calls[0] is not val or not all(
+                _pure_lookup(a_) for a_ in val.args) or val.keywords or \
+                not isinstance(val.func, ast.Attribute):
+            return False
     # all uses come after the definition, in its block or nested in a later
     # statement of its block
     later = blk[i + 1:]
@@ -923,6 +1050,13 @@ def _temps_and_names(fn, rf, log, q):
                     log.append('%s: temporary %s inlined' % (q, c_))
                     done = True
                     break
+            if not done:
+                for c_ in reversed(cur_only):
+                    if _inline_temp(fn, c_, allow_calls=True):
+                        log.append('%s: temporary %s (getter call) inlined'
+                                   % (q, c_))
+                        done = True
+                        break
             if done:
                 ast.fix_missing_locations(fn)
                 continue
@@ -978,25 +1112,34 @@ def _renumber(fn):
     fn.end_lineno = max(getattr(fn, 'end_lineno', 0) or 0, prev[0])
 
 
-def canonicalise(tree, modname):
+def canonicalise(tree, modname, text=None):
     """Rewrite the module tree in place; returns the list of rewrites."""
     log = []
     if os.environ.get('DSA_NO_CANON'):
         return log
     ref = load_reference()
-    tree_new = _Universal().visit(tree)
-    ast.fix_missing_locations(tree_new)
+    _Universal().visit(tree)
     table = ref.get(modname)
     if not table:
+        ast.fix_missing_locations(tree)
         return log
+    if text is not None:
+        import hashlib
+        if hashlib.sha1(text.encode()).hexdigest() == table.get('__sha1__'):
+            ast.fix_missing_locations(tree)
+            return log          # the file the reference was taken from
     _inline_helpers(tree, modname, ref, log)
+    helpers_inlined = bool(log)
     for q, fn, cls, body in qualfuncs(tree):
         rf = table.get(q)
         if not rf:
             continue
+        if not helpers_inlined and describe(fn) == rf:
+            continue            # unchanged forms: nothing to rewrite
         n0 = len(log)
         _orient_ifs(fn, rf, log, q)
         _loops_to_reference(fn, rf, log, q)
+        _unroll_literal_loops(fn, rf, log, q)
         _temps_and_names(fn, rf, log, q)
         if len(log) > n0 or any(l.startswith('inlined helper')
                                 for l in log):
